@@ -212,6 +212,14 @@ static map_basic_basic make_point(const RCP<const Basic> &e, int k)
     return m;
 }
 
+static map_basic_basic perturbed(const map_basic_basic &pt)
+{
+    map_basic_basic m;
+    for (const auto &p : pt)
+        m[p.first] = mul(p.second, real_double(1.0 + 1e-10));
+    return m;
+}
+
 static bool numval(const RCP<const Basic> &e, const map_basic_basic &pt, cplx &out)
 {
     try {
@@ -287,6 +295,18 @@ static bool has_class(const RCP<const Basic> &e, TypeID id)
     return false;
 }
 
+// a Pow with a Rational exponent and a base that is not a Number: RealImagVisitor's sqrt / atan2 / cos / sin rule
+static bool has_rational_pow(const RCP<const Basic> &e)
+{
+    if (is_a<Pow>(*e) and is_a<Rational>(*down_cast<const Pow &>(*e).get_exp())
+        and not is_a_Number(*down_cast<const Pow &>(*e).get_base()))
+        return true;
+    for (const auto &a : e->get_args())
+        if (has_rational_pow(a))
+            return true;
+    return false;
+}
+
 static bool has_index_function(const RCP<const Basic> &e)
 {
     if (is_a<KroneckerDelta>(*e) or is_a<LeviCivita>(*e))
@@ -332,7 +352,11 @@ static std::string oracle_analyse(const RCP<const Basic> &e, const Out &nd, cons
         }
     }
     if (ri.ok) {
-        const std::string cls = has_class(e, SYMENGINE_COT) ? "cot" : has_nonint_pow(e) ? "nonint-pow" : "other";
+        // class of a wrong value: the Cot rule (known finding), else by the presence of non-integer powers
+        const std::string vcls = has_class(e, SYMENGINE_COT) ? "cot"
+                                 : has_rational_pow(e)      ? "rational-pow"
+                                 : has_nonint_pow(e)        ? "nonint-pow"
+                                                            : "other";
         for (int k = 0; k < 2; k++) {
             map_basic_basic pt = make_point(e, k);
             cplx ve, vr, vi;
@@ -343,7 +367,7 @@ static std::string oracle_analyse(const RCP<const Basic> &e, const Out &nd, cons
                     break;
                 }
                 if (not close_to(vr + cplx(0, 1) * vi, ve)) {
-                    o += "\t#ORACLE:ri-value:" + cls + ":re + I*im = " + show(vr + cplx(0, 1) * vi) + " but e = " + show(ve);
+                    o += "\t#ORACLE:ri-value:" + vcls + ":re + I*im = " + show(vr + cplx(0, 1) * vi) + " but e = " + show(ve);
                     break;
                 }
             }
@@ -401,11 +425,28 @@ static bool cut_over_rewritten(const RCP<const Basic> &e)
     return false;
 }
 
+static bool has_zero_base_pow(const RCP<const Basic> &e)
+{
+    if (is_a<Pow>(*e) and eq(*down_cast<const Pow &>(*e).get_base(), *zero))
+        return true;
+    if (is_a<Mul>(*e))
+        for (const auto &p : down_cast<const Mul &>(*e).get_dict())
+            if (eq(*p.first, *zero))
+                return true;
+    for (const auto &a : e->get_args())
+        if (has_zero_base_pow(a))
+            return true;
+    return false;
+}
+
 static std::string oracle_rewrite(const std::string &op, const RCP<const Basic> &e, const Out &r)
 {
     if (not r.ok)
         return "";
     if ((op == "EXP" or op == "SIN" or op == "COS") and cut_over_rewritten(e))
+        return "";
+    // 0**w with a symbolic w is 0, 1 or infinite depending on the point: nothing to compare
+    if (has_zero_base_pow(e))
         return "";
     // a symbol-free input is a single point, typically on the branch cuts of the inverse functions
     if (free_symbols(*e).empty())
@@ -416,8 +457,12 @@ static std::string oracle_rewrite(const std::string &op, const RCP<const Basic> 
         return "";
     for (int k = 2; k < 4; k++) {
         map_basic_basic pt = make_point(e, k);
-        cplx ve, vr;
+        cplx ve, vr, ve2;
         if (numval(e, pt, ve) and numval(r.a, pt, vr)) {
+            // conditioning: the input itself must be stable under a relative perturbation of 1e-10 of the point
+            // (sec((12 + |x|)**15) is not: the argument is of the order 1e16)
+            if (not numval(e, perturbed(pt), ve2) or std::abs(ve - ve2) > 1e-6 * std::max(1.0, std::abs(ve)))
+                continue;
             cplx want = conj ? std::conj(ve) : ve;
             if (not close_to(vr, want))
                 return "\t#ORACLE:" + op + "-value:" + ":output = " + show(vr) + " but expected " + show(want)
@@ -435,7 +480,8 @@ static std::string show_pair(const Out &o)
     return verif::dump(*o.a) + " ;; " + verif::dump(*o.b);
 }
 
-static std::string run_case(const std::string &line, const std::function<void()> &recipe_done)
+static std::string run_case(const std::string &line, const std::function<void()> &recipe_done,
+                            const std::function<void(const std::string &)> &partial)
 {
     if (line.size() < 3)
         return "SKIP empty";
@@ -466,15 +512,23 @@ static std::string run_case(const std::string &line, const std::function<void()>
         std::string o = verif::dump(*e) + "\tND:" + show_pair(nd) + "\tRI:" + show_pair(ri) + "\tXE:"
                         + (xe.ok ? verif::dump(*xe.a) : xe.exn);
         // CH: which operations changed the expression (nd: denominator not 1, ri: imaginary part not 0)
-        std::string ch, orc = oracle_analyse(e, nd, ri);
+        std::string ch, orc;
         ch += (nd.ok and not eq(*nd.b, *one)) ? "1" : "0";
         ch += (ri.ok and not eq(*ri.b, *zero)) ? "1" : "0";
+        std::vector<Out> outs;
         for (const char *op : {"EXP", "SIN", "COS", "T2S", "CONJ"}) {
-            Out r = run_op(op, e);
-            ch += (r.ok and not eq(*r.a, *e)) ? "1" : "0";
-            orc += oracle_rewrite(op, e, r);
+            outs.push_back(run_op(op, e));
+            ch += (outs.back().ok and not eq(*outs.back().a, *e)) ? "1" : "0";
         }
-        return o + "\tCH:" + ch + orc;
+        o += "\tCH:" + ch;
+        // the numeric oracle substitutes doubles and evaluates: a crash in there (e.g. a libstdc++ assertion on
+        // a NaN inside std::pow) is not a crash of the operations under test; the line without oracle survives
+        partial(o);
+        orc = oracle_analyse(e, nd, ri);
+        size_t k = 0;
+        for (const char *op : {"EXP", "SIN", "COS", "T2S", "CONJ"})
+            orc += oracle_rewrite(op, e, outs[k++]);
+        return o + orc;
     }
     if (mode == 'V') {
         std::string o;
@@ -540,7 +594,14 @@ int main()
                 alarm(120);
                 std::string r;
                 try {
-                    r = run_case(lines[i], [&]() { send("@\n"); });
+                    r = run_case(lines[i], [&]() { send("@\n"); },
+                                 [&](const std::string &p) {
+                                     std::string q = p;
+                                     for (auto &c : q)
+                                         if (c == '\n')
+                                             c = ' ';
+                                     send("@P" + q + "\n");
+                                 });
                 } catch (...) {
                     r = "UNCAUGHT";
                 }
@@ -562,6 +623,7 @@ int main()
         waitpid(pid, &status, 0);
         size_t i = start, pos = 0;
         bool recipe_ok = false;
+        std::string part;
         while (pos < buf.size() and i < n) {
             size_t nl = buf.find('\n', pos);
             if (nl == std::string::npos)
@@ -570,9 +632,12 @@ int main()
             pos = nl + 1;
             if (l == "@") {
                 recipe_ok = true;
+            } else if (l.compare(0, 2, "@P") == 0) {
+                part = l.substr(2);
             } else {
                 out[i++] = l;
                 recipe_ok = false;
+                part.clear();
             }
         }
         if (i >= n)
@@ -581,6 +646,8 @@ int main()
             int sig = WTERMSIG(status);
             if (!recipe_ok)
                 out[i] = "SKIP recipe-crash:" + std::to_string(sig);
+            else if (!part.empty())
+                out[i] = part + "\t#NOTE:oracle-evaluation-died:" + std::to_string(sig);
             else
                 out[i] = sig == SIGALRM ? "HANG" : "CRASH:" + std::to_string(sig);
         } else {
